@@ -501,6 +501,37 @@ def main():
         return fails, mism
 
     fails, mism = triage(results)
+    unconfirmed = []
+    if fails and len(fails) <= 3 and not replay and okh and os.environ.get("VERIF_NO_CONFIRM") != "1":
+        # A case is written so that it replays exactly. A few isolated oracle failures are therefore replayed alone
+        # before they are reported: a failure that shows again in any of three replays (or whose replay does not end
+        # normally) is reported as it was; one that three complete replays in a row do not show is listed as
+        # UNCONFIRMED (evidence + stdout) and is not a violation — on a machine stalled by other work a wall-clock
+        # wait inside a harness can misfire once (DESIGN Appendix F).  Many failing cases are never filtered.
+        keep = []
+        for c in fails:
+            rf = os.path.join(BUILD, "confirm_%s_%d.json" % (prop, os.getpid()))
+            reproduced = False
+            for attempt in range(3):
+                try:
+                    json.dump({k: c[k] for k in ("case", "class", "ops") if k in c}, open(rf, "w"))
+                    rc2, o2, cs2, _ = run_harness(prop, tier, seed, log, replay=rf, tag="_confirm")
+                    ok_run = rc2 == 0 and len(cs2) == 1 and cs2[0].get("oracle") == "ok"
+                except Exception as e:  # anything unexpected counts as reproduced: never hide a failure by accident
+                    log.append("confirm: %r" % (e,))
+                    ok_run = False
+                if not ok_run:
+                    reproduced = True
+                    break
+            try:
+                os.remove(rf)
+            except OSError:
+                pass
+            (keep if reproduced else unconfirmed).append(c)
+        fails = keep
+        for c in unconfirmed:
+            print("UNCONFIRMED: property=%s an oracle failure [%s] of case %s (class %s) did not show again in three replays of that case; not reported"
+                  % (prop, c.get("sig"), c.get("case"), c.get("class")))
     searched = False
 
     def widen():
